@@ -48,6 +48,9 @@ FIXED_CALLERS = [
     "{ set_usr_field(bundle, HEX_REG_FIELD_USR_LPCFG, clz32(RsV)); }",
     # a value-returning routine with a by-reference operand as a statement of an else arm
     "{ if (RsV > RtV) { RdV = 1; } else { fcirc_add(bundle, RxV, siV, MuV, HEX_REG_ALIAS_CS0); } }",
+    # chained assignment of a call result (rejected on the unchanged tree; if accepted, the call has to run first)
+    "{ int32_t ca1; int32_t cb1; ca1 = cb1 = clz32(RsV); RdV = ca1 + cb1; }",
+    "{ int32_t ca1 = 0; int32_t cb1 = 0; ca1 = cb1 = clz32(RsV) + clo32(RtV); RdV = ca1 - cb1; }",
 ]
 
 
@@ -414,12 +417,12 @@ class EngineC08(HistEngine):
                     bad = None
                     def observed(run, name):
                         if name.startswith("@"):
-                            return run["written"].get({"RdV": "Rd_op"}.get(name[1:], name[1:]))
+                            return run["written"].get({"RdV": c.get("byref_key", "Rd_op")}.get(name[1:], name[1:]))
                         return run["locals"].get(name)
-                    expected_regs = {{"RdV": "Rd_op"}.get(k_[1:], k_[1:]) for k_ in want if k_.startswith("@")}
+                    expected_regs = {{"RdV": c.get("byref_key", "Rd_op")}.get(k_[1:], k_[1:]) for k_ in want if k_.startswith("@")}
                     extra = sorted(set(scoped["written"]) - expected_regs)
                     if extra:
-                        V.append(Violation("C08", "convention", "unexpected-register-write", cfg,
+                        V.append(Violation("C08", "convention", "unexpected-register-write", cfg + (":named-operand" if c.get("byref_key") else ""),
                                            {"caller": c["text"], "registers": extra, "expected": sorted(expected_regs)}, step))
                         conv_done = True
                         continue
